@@ -76,6 +76,65 @@ def make_lines(ctx, rows):
     return lines, vals
 
 
+class FakeFile:
+    """what `with open(...) as f` yields: only readlines() is used by the record readers"""
+
+    def __init__(self, lines):
+        self.lines = lines
+
+    def __enter__(self):
+        return self
+
+    def __exit__(self, *a):
+        return False
+
+    def fvc_getattr(self, it, name):
+        from fvc.lib import ModelFn
+        if name == "readlines":
+            return ModelFn("file.readlines", lambda it_: list(self.lines))
+        raise I.SymError("file." + name)
+
+
+def run_reader(ctx, method, lines, index, pressures=None):
+    """runs the WHOLE reader method (get_vertices / get_edges / get_cells / get_pressures) of a SurfaceEvolver object on the given
+    lines; section bounds (get_first_last) and, for get_cells, the pressures are given by contract.  Independent of the names of
+    the method's locals."""
+    import os
+    import tempfile
+    from .common import cls, KEEP
+    SEc = cls(ctx, SE, "SurfaceEvolver")
+    idx = {"get_vertices": 0, "get_edges": 1, "get_cells": 2, "get_pressures": 3}[method]
+    bounds = [(0, 0)] * 4
+    bounds[idx] = index
+    ctx.stub(SE + ":SurfaceEvolver.get_first_last", lambda it, a, k: tuple(bounds), "section boundaries (calculate_first_last: bounded stand-in B14)")
+    if pressures is not None:
+        ctx.stub(SE + ":SurfaceEvolver.get_pressures", lambda it, a, k: pressures, "callee contract: body records (O14.2/body-records)")
+    if ctx.mode == "sym":
+        ctx.stub("builtins.open", lambda it, a, k: FakeFile(lines), "A-split/regex: a dump file is the list of its lines")
+        ctx.stub("re.search", lambda it, a, k: Match(a[1].toks[0]), "A-split/regex: first digit run of a record = its leading id token")
+        se = ctx.alloc(SEc, fname="dump.dmp")
+    else:
+        f = tempfile.NamedTemporaryFile("w", suffix=".dmp", delete=False)
+        f.write("".join(lines))
+        f.close()
+        KEEP.append(f.name)
+        ctx.apply_stubs = True
+        ctx.stub(SE + ":SurfaceEvolver.get_first_last", lambda it, a, k: tuple(bounds))
+        if pressures is not None:
+            ctx.stub(SE + ":SurfaceEvolver.get_pressures", lambda it, a, k: pressures)
+        se = ctx.alloc(SEc, fname=f.name)
+    out = ctx.callm(se, method)
+    if ctx.mode != "sym":
+        os.unlink(f.name)
+    return out
+
+
+def col(ctx, df, name):
+    if ctx.mode == "sym":
+        return list(df.columns[name])
+    return df[name].tolist()
+
+
 def run_loop(ctx, func, pattern, env):
     stmts = ctx.fragment(SE, "SurfaceEvolver." + func, [pattern])
     if ctx.mode == "sym":
@@ -93,8 +152,8 @@ def o14_2(tier):
         lines, v = make_lines(ctx, [header] + rows + [[]])
         for name in ("a0", "a1"):
             ctx.assume(v[name] >= 0, "pre: ids are written without sign")
-        out = run_loop(ctx, "get_vertices", "for i in range(index_v[0] + 1, index_v[1]):", dict(lines=lines, index_v=(0, 3), ids=[], xs=[], ys=[]))
-        ids, xs, ys = ctx.list_of(out["ids"]), ctx.list_of(out["xs"]), ctx.list_of(out["ys"])
+        df = run_reader(ctx, "get_vertices", lines, (0, 3))
+        ids, xs, ys = col(ctx, df, "id"), col(ctx, df, "x"), col(ctx, df, "y")
         ctx.ensure(len(ids) == 2 and ctx.eq(ids[0], v["a0"]) and ctx.eq(ids[1], v["a1"]), "one id per record, in order")
         if ctx.mode == "sym":
             from fvc import sym
@@ -113,8 +172,8 @@ def o14_2(tier):
             for nm in (f"e{k}", f"p{k}", f"q{k}"):
                 ctx.assume(v[nm] >= 0, "pre: ids are written without sign")
         ctx.assume(v["o2"] >= 0, "pre")
-        out = run_loop(ctx, "get_edges", "for i in range(index_e[0] + 1, index_e[1]):", dict(lines=lines, index_e=(0, 5), ids=[], id1=[], id2=[], forces=[]))
-        ids, id1, id2, fo = (ctx.list_of(out[k]) for k in ("ids", "id1", "id2", "forces"))
+        df = run_reader(ctx, "get_edges", lines, (0, 5))
+        ids, id1, id2, fo = (col(ctx, df, k) for k in ("id", "id1", "id2", "force"))
         ctx.ensure(len(ids) == 4, "one edge per record")
         for k in range(4):
             ctx.ensure(ctx.And(ctx.eq(ids[k], v[f"e{k}"]), ctx.eq(id1[k], v[f"p{k}"]), ctx.eq(id2[k], v[f"q{k}"])), f"record {k}: id and the two recorded vertices")
@@ -126,8 +185,7 @@ def o14_2(tier):
                 [("i", "b1"), ("i", "f1"), "volume", ("r", "v1"), "/*actual:", "499.9*/", "lagrange_multiplier", ("r", "m1"), "centerofmass"]]
         lines, v = make_lines(ctx, [["bodies", "/*", "facets", "*/"]] + rows + [[]])
         ctx.assume(ctx.And(v["b0"] >= 0, v["b1"] >= 0, ctx.Not(ctx.eq(v["b0"], v["b1"]))), "pre")
-        out = run_loop(ctx, "get_pressures", "for i in range(index_p[0] + 1, index_p[1]):", dict(lines=lines, index_p=(0, 3), pressures=ctx.dict()))
-        pr = out["pressures"]
+        pr = run_reader(ctx, "get_pressures", lines, (0, 3))
         ctx.ensure(len(ctx.keys(pr)) == 2, "one pressure per body")
         ctx.ensure(ctx.And(ctx.close(ctx.item(pr, v["b0"]), v["m0"]), ctx.close(ctx.item(pr, v["b1"]), v["m1"])), "body id -> its Lagrange multiplier (token 7)")
     return [("vertex-records", h_vertices), ("edge-records", h_edges), ("body-records", h_bodies)]
@@ -152,9 +210,10 @@ def o14_4(tier):
             lines, v = make_lines(ctx, [["faces", "/*", "edge", "loop", "*/"]] + rows + [[]])
             for f in range(len(wrap)):
                 ctx.assume(v[f"face{f}"] >= 0, "pre")
-            out = run_loop(ctx, "get_cells", "for i in range(index_f[0] + 1, index_f[1]):",
-                           dict(lines=lines, index_f=(0, len(rows) + 1), ids=[], edges=[], current_edge=[], first=True))
-            ids, edges = ctx.list_of(out["ids"]), [ctx.list_of(e) for e in ctx.list_of(out["edges"])]
+            pvals = [ctx.real(f"pressure{f}") for f in range(len(wrap))]
+            df = run_reader(ctx, "get_cells", lines, (0, len(rows) + 1), pressures=ctx.dict([(100 + f, pvals[f]) for f in range(len(wrap))]))
+            ids, edges = col(ctx, df, "id"), [ctx.list_of(e) for e in col(ctx, df, "edges")]
+            ctx.ensure(ctx.And(*[ctx.close(a, b) for a, b in zip(col(ctx, df, "pressures"), pvals)]) and len(col(ctx, df, "pressures")) == len(wrap), "pressures paired with the faces in order")
             ctx.ensure(len(ids) == len(wrap) and len(edges) == len(wrap), "one cell per face record")
             for f in range(len(wrap)):
                 got_id = ids[f]
